@@ -58,8 +58,38 @@ pub fn gen_frame_bytes(rng: &mut Rng, is_client_node: bool, known_md5: &str) -> 
     ref_encode(cmd, sid, &data)
 }
 
+/// a server-side case whose inbound byte stream (SYN, data frames of the given sizes, FIN for stream 1) arrives cut at
+/// the given offsets - the receive loop's buffer management between reads is what is exercised
+pub fn fragmented_case(sizes: &[usize], cuts: &[usize], tagbase: u8) -> Case {
+    let mut w = ref_encode(1, 1, &[]);
+    for (i, n) in sizes.iter().enumerate() {
+        let mut d = vec![tagbase.wrapping_add(i as u8); *n];
+        if let Some(l) = d.last_mut() { *l ^= 0x5a; }
+        w.extend(ref_encode(2, 1, &d));
+    }
+    w.extend(ref_encode(3, 1, &[]));
+    let mut cs: Vec<usize> = cuts.iter().copied().filter(|c| *c > 0 && *c < w.len()).collect();
+    cs.sort(); cs.dedup();
+    let mut lines = vec![reset_line("sess", "server", b"stop=0", 1, "cb=1")];
+    let mut prev = 0;
+    for c in cs.iter().chain(std::iter::once(&w.len())) { lines.push(format!("sess feed {}", hex_compact(&w[prev..*c]))); prev = *c; }
+    for _ in 0..sizes.len() + 2 { lines.push("sess read 0 70000".into()); }
+    lines.push("sess state".into());
+    Case { lines }
+}
+
 impl Group for SessGroup {
     fn default_cases(&self, tier: &str) -> u64 { if tier == "thorough" { 20_000 } else { 600 } }
+
+    fn fixed(&self, _tier: &str) -> Vec<Case> {
+        let mut v = vec![];
+        // a maximum-size frame whose last read ends a few bytes into the next frame's header
+        let e = 7 + 7 + 65535; // end of the big frame (after the SYN)
+        for k in 0..=7 { v.push(fragmented_case(&[65535, 500, 700], &[e - 300, e + k], 0x10)); }
+        for (r, k) in [(1usize, 1usize), (1023, 6), (1024, 3), (5000, 2), (8191, 5)] { v.push(fragmented_case(&[65535, 65535, 9], &[e - r, e + k, 2 * e - 7 - r, 2 * e - 7 + k], 0x20)); }
+        v.push(fragmented_case(&[1, 2, 3], &[1, 2, 3, 4, 5, 6, 7, 8, 9, 10, 11, 12, 13, 14, 15, 16, 20, 21, 22, 23], 0x30));
+        v
+    }
 
     fn generate(&self, rng: &mut Rng, _tier: &str, _idx: u64) -> Case {
         let role = if rng.chance(1, 2) { "client" } else { "server" };
@@ -70,6 +100,21 @@ impl Group for SessGroup {
         if role == "server" {
             if rng.chance(4, 5) { opts.push_str("cb=1"); }
             if rng.chance(1, 4) { if !opts.is_empty() { opts.push(' '); } opts.push_str("ss=foo:bar"); }
+        }
+        if rng.chance(1, 12) {
+            // fragmented inbound stream: frames of assorted sizes, cuts near the end of every frame and elsewhere
+            let n = rng.range(1, 5) as usize;
+            let sizes: Vec<usize> = (0..n).map(|_| if rng.chance(1, 3) { *rng.pick(&[65535usize, 65534, 65529, 65528, 57343, 32768]) } else { *rng.pick(&[0usize, 1, 6, 7, 300, 1017, 8185, 8192, 9000]) }).collect();
+            let mut cuts = vec![];
+            let mut e = 7usize;
+            for sz in &sizes {
+                e += 7 + sz;
+                if rng.chance(2, 3) { cuts.push(e.saturating_sub(rng.range(1, 1200) as usize)); }
+                if rng.chance(2, 3) { cuts.push(e + rng.below(8) as usize); }
+                if rng.chance(1, 4) { cuts.push(e.saturating_sub(rng.range(1, 9000) as usize)); }
+            }
+            for _ in 0..rng.below(3) { cuts.push(rng.below(e as u64 + 7) as usize); }
+            return fragmented_case(&sizes, &cuts, rng.next() as u8);
         }
         let mut lines = vec![reset_line("sess", role, &scheme, seed, &opts)];
         if rng.chance(2, 5) {
@@ -178,6 +223,8 @@ pub fn exec_node_case(case: &Case, prefix: &str) -> Outcome {
     let mut registered: std::collections::BTreeMap<u32, u32> = std::collections::BTreeMap::new(); // sid -> times opened
     let mut finished: std::collections::BTreeSet<u32> = std::collections::BTreeSet::new();
     let mut readb: std::collections::BTreeMap<usize, Vec<u8>> = std::collections::BTreeMap::new();
+    // bytes fed and not yet making up a whole frame (a feed may end anywhere inside a frame)
+    let mut feedbuf: Vec<u8> = vec![];
     rt.block_on(async {
         let mut node: Option<Node> = None;
         for line in &case.lines {
@@ -186,6 +233,7 @@ pub fn exec_node_case(case: &Case, prefix: &str) -> Outcome {
             let toks = &toks[1..];
             if toks.first() == Some(&"reset") {
                 if let Some(mut n) = node.take() { n.shutdown(); }
+                feedbuf.clear();
                 match parse_reset(&toks[1..]) {
                     Some((role, scheme, seed, cb, ss)) => {
                         install_draws(seed);
@@ -207,7 +255,10 @@ pub fn exec_node_case(case: &Case, prefix: &str) -> Outcome {
                         match toks {
                             ["open"] => { if let Some(p) = o.split("sid=").nth(1) { if let Ok(v) = p.split(' ').next().unwrap().parse::<u32>() { *registered.entry(v).or_insert(0) += 1; } } }
                             ["feed", hx] => {
-                                for (c, sid, d) in crate::g_frame::ref_parse(&unhex(hx).unwrap_or_default()).0 {
+                                feedbuf.extend_from_slice(&unhex(hx).unwrap_or_default());
+                                let (frames, rest) = crate::g_frame::ref_parse(&feedbuf);
+                                feedbuf = rest;
+                                for (c, sid, d) in frames {
                                     if c == 1 && !n.is_client { *registered.entry(sid).or_insert(0) += 1; }
                                     if c == 2 && registered.contains_key(&sid) && !finished.contains(&sid) { fed.entry(sid).or_default().extend_from_slice(&d); }
                                     if c == 3 { finished.insert(sid); }
@@ -222,6 +273,9 @@ pub fn exec_node_case(case: &Case, prefix: &str) -> Outcome {
                                         let w = fed.get(&sid).cloned().unwrap_or_default();
                                         if !w.starts_with(&r) {
                                             out.oracle.push(OracleFail { sig: "not_a_prefix/stream_reader".into(), detail: format!("stream {sid}: {} bytes read are not a prefix of the {} bytes delivered to the session", r.len(), w.len()) });
+                                        }
+                                        if o.starts_with("block") && r.len() < w.len() {
+                                            out.oracle.push(OracleFail { sig: "delivered_data_unreadable/recv_loop".into(), detail: format!("stream {sid}: a read blocks after {} bytes although {} bytes were delivered to the session in whole frames", r.len(), w.len()) });
                                         }
                                         if o.starts_with("eof") && r != w {
                                             out.oracle.push(OracleFail { sig: "eof_before_all_data/stream_reader".into(), detail: format!("stream {sid}: end of stream after {} of {} bytes", r.len(), w.len()) });
